@@ -88,6 +88,19 @@ func (p *Prog) initTransparency() {
 			fresh = append(fresh, f)
 		}
 		claimed := map[*ssa.Function][]string{}
+		// (several functions of one signature renamed at once — expectToken / expectTokenOrQuoted → scanToken /
+		// scanTokenOrQuoted: the names decide, by what they still have in common)
+		similar := func(a, b string) int {
+			a, b = baseName(a), baseName(b)
+			n := 0
+			for i := 0; i < len(a) && i < len(b) && a[i] == b[i]; i++ {
+				n++
+			}
+			for i := 1; i <= len(a) && i <= len(b) && a[len(a)-i] == b[len(b)-i]; i++ {
+				n++
+			}
+			return n
+		}
 		for n, sig := range sigInventory {
 			if p.fnIdx[n] != nil {
 				continue
@@ -96,6 +109,33 @@ func (p *Prog) initTransparency() {
 			for _, f := range fresh {
 				if short(fnPkgPath(f)) == pkgOf(n) && flatSig(f) == sig {
 					cs = append(cs, f)
+				}
+			}
+			if len(cs) > 1 {
+				// the one candidate whose name is strictly closest to the vanished name — and for which, in turn, this
+				// vanished name is strictly the closest among the vanished names of that signature
+				best, bestScore, tie := (*ssa.Function)(nil), -1, false
+				for _, f := range cs {
+					sc := similar(n, f.Name())
+					if sc > bestScore {
+						best, bestScore, tie = f, sc, false
+					} else if sc == bestScore {
+						tie = true
+					}
+				}
+				if best != nil && !tie && bestScore >= 4 {
+					mutual := true
+					for n2, sig2 := range sigInventory {
+						if n2 == n || p.fnIdx[n2] != nil || sig2 != sig || pkgOf(n2) != pkgOf(n) {
+							continue
+						}
+						if similar(n2, best.Name()) >= bestScore {
+							mutual = false
+						}
+					}
+					if mutual {
+						cs = []*ssa.Function{best}
+					}
 				}
 			}
 			if len(cs) == 1 {
@@ -476,6 +516,9 @@ func viPathExists(root *ssa.Function, from, to ssa.Instruction, cutEdge EdgePred
 				if applyCut(cutEdge, cond, br) {
 					continue
 				}
+				if cond != iff.Cond && applyCut(cutEdge, iff.Cond, br) {
+					continue // (the fact is stated about the merged value the condition was resolved from)
+				}
 				if len(pt.ret) > 0 && (infeasibleEdge(cond, br) || nilTestContradictsReturn(cond, br, pt.ret)) {
 					continue // contradicts the value the helper returned on this path
 				}
@@ -686,6 +729,9 @@ func viPathToSite(root *ssa.Function, s Site, cutEdge EdgePred, cutInstr func(ss
 				if applyCut(cutEdge, cond, br) {
 					continue
 				}
+				if cond != iff.Cond && applyCut(cutEdge, iff.Cond, br) {
+					continue // (the fact is stated about the merged value the condition was resolved from)
+				}
 				if len(pt.ret) > 0 && (infeasibleEdge(cond, br) || nilTestContradictsReturn(cond, br, pt.ret)) {
 					continue // contradicts the value the helper returned on this path
 				}
@@ -767,6 +813,24 @@ func boolPhiEnv(env map[*ssa.Phi]ssa.Value, key string, b, pred *ssa.BasicBlock)
 			break
 		}
 		if bt, isB := phi.Type().Underlying().(*types.Basic); !isB || bt.Kind() != types.Bool {
+			// a merged error / pointer whose operand on this edge is plainly nil or plainly not nil (`keyErr = errors.New(…)`
+			// in one branch, tested `keyErr != nil` after the merge): remembered so that the later nil test is decided
+			e := phi.Edges[idx]
+			if !(isNilConst(e) || nonNilDirect(e)) {
+				continue
+			}
+			switch phi.Type().Underlying().(type) {
+			case *types.Interface, *types.Pointer:
+			default:
+				continue
+			}
+			if out == nil {
+				out = map[*ssa.Phi]ssa.Value{}
+				for k, v := range env {
+					out[k] = v
+				}
+			}
+			out[phi] = e
 			continue
 		}
 		if out == nil {
@@ -788,9 +852,44 @@ func boolPhiEnv(env map[*ssa.Phi]ssa.Value, key string, b, pred *ssa.BasicBlock)
 	return out, strings.Join(parts, ",")
 }
 
-// resolveBoolPhi replaces a boolean phi (possibly under negations) by the operand it took on the current path.
+// nonNilDirect: the value is, as it stands, the result of an error constructor or a fresh allocation.
+func nonNilDirect(v ssa.Value) bool {
+	switch x := v.(type) {
+	case *ssa.Call:
+		if x.Call.IsInvoke() {
+			return false
+		}
+		n := calleeName(&x.Call)
+		return n == "errors.New" || n == "fmt.Errorf" || (strings.HasPrefix(n, "github.com/go-openapi/errors.") && !strings.HasSuffix(n, ".CompositeValidationError"))
+	case *ssa.MakeInterface:
+		return neverNilD(x.X, 0) || nonNilDirect(x.X)
+	}
+	return neverNilD(v, 0)
+}
+
+// resolveBoolPhi replaces a boolean phi (possibly under negations) by the operand it took on the current path; a nil
+// test of a merged error / pointer whose operand on this path is plainly nil or plainly not nil becomes a constant.
 func resolveBoolPhi(c ssa.Value, env map[*ssa.Phi]ssa.Value) ssa.Value {
 	if len(env) == 0 {
+		return c
+	}
+	if bo, isBo := c.(*ssa.BinOp); isBo && (bo.Op == token.EQL || bo.Op == token.NEQ) {
+		var phi *ssa.Phi
+		if p, ok := bo.X.(*ssa.Phi); ok && isNilConst(bo.Y) {
+			phi = p
+		} else if p, ok := bo.Y.(*ssa.Phi); ok && isNilConst(bo.X) {
+			phi = p
+		}
+		if phi != nil {
+			if v, ok := env[phi]; ok {
+				if isNilConst(v) {
+					return ssa.NewConst(constant.MakeBool(bo.Op == token.EQL), c.Type())
+				}
+				if nonNilDirect(v) {
+					return ssa.NewConst(constant.MakeBool(bo.Op == token.NEQ), c.Type())
+				}
+			}
+		}
 		return c
 	}
 	neg := false
